@@ -55,4 +55,19 @@ PROPS['C03'] = {
                    'per-column postcondition (columns are independent and metadata other than range is unchanged).',
 }
 
+PROPS['C07'] = {
+    'contracts': ['contracts.transform:ToRfi', 'contracts.transform:ToMef', 'contracts.gate:HighLow'],
+    'bounded': True,
+    'level': 'other',
+    'timeout_ms': 10000,
+    'explanation': 'Proved (over the reals, unbounded): after to_rfi/to_mef the limits of every converted channel are the SAME law term '
+                   'applied to the old limits that is applied to that channel\'s events (obligations converted-range-*), unconverted '
+                   'channels keep their limits (other-ranges-identical), and high_low defaults compare strictly against range()[c] of each '
+                   'selected channel. NOT decidable by contracts: that evaluating the law on the limits and on the events gives bit-identical '
+                   'floats (A-POINTWISE); this clause is checked only by the bounded stand-in: exact comparison of limits with converted '
+                   'saturated events and of gate-before vs gate-after over an amplifier/curve parameter lattice (stated bound in coverage.bounded).',
+    'level_note': 'A-REAL for the proved part; bitwise clause bounded only (parameter lattice + seeded draws).',
+    'technique': 'contract-based deductive verification (range obligations of to_rfi/to_mef/high_low) + bounded bitwise sweep on the real code',
+}
+
 NOT_APPLICABLE = {}
